@@ -23,6 +23,7 @@ from __future__ import annotations
 import copy
 import json
 import os
+import sys
 
 from .. import core, tplgen
 from .. import render_common as rc
@@ -576,6 +577,75 @@ def run_flatten_stock(chk, n):
             return
 
 
+# ------------------------------------------------------------------ stream: the lexer opt-out (own process per configuration)
+
+OPTOUT_SCRIPT = r"""
+import json, sys, re
+sys.path.insert(0, sys.argv[1])
+cfg = json.loads(sys.argv[2])
+srcs = json.loads(sys.stdin.read())
+import django.template.base as b
+orig = (b.tag_re.pattern, b.tag_re.flags)
+stock_re = re.compile(*orig)
+from django.conf import settings
+settings.configure(INSTALLED_APPS=("django_components",), COMPONENTS=cfg, SECRET_KEY="s",
+    TEMPLATES=[{"BACKEND": "django.template.backends.django.DjangoTemplates", "DIRS": [],
+                "OPTIONS": {"builtins": ["django_components.templatetags.component_tags"]}}])
+import django
+django.setup()
+after = (b.tag_re.pattern, b.tag_re.flags)
+def toks(src):
+    return [[int(t.token_type.value), t.contents] for t in b.Lexer(src).tokenize()]
+out = []
+for src in srcs:
+    got = toks(src)
+    saved = b.tag_re
+    b.tag_re = stock_re
+    try:
+        want = toks(src)
+    finally:
+        b.tag_re = saved
+    out.append(got == want)
+print(json.dumps({"orig": list(orig), "after": list(after), "same": out}))
+"""
+
+
+def run_optout(chk, n):
+    """`COMPONENTS.multiline_tags = False` is the documented way to keep Django's own `tag_re`: in a fresh process with
+    that setting, installing the library must leave `django.template.base.tag_re` as it was and lex every source —
+    also those with a newline between the delimiters of a tag — as stock Django does"""
+    import subprocess
+    stream = "opt-out"
+    r = core.rng(PROP, stream)
+    pieces = ["{{ a }}", "{{ a\n}}", "{{\na }}", "{% if a %}", "{% if\n a %}", "{% endif %}", "{# c #}", "{#\n c #}", "x", "\n", " ",
+              "{% with\n b=a %}", "{% endwith %}", "{{ a|default:'q'\n}}", "{%\ncomment %}", "{% endcomment %}", "}}", "{{"]
+    srcs = ["{{ a\n}}", "{% if\n a %}T{% endif %}", "{#\n c #}", "{{ a }}"]
+    for _ in range(n):
+        srcs.append("".join(r.choice(pieces) for _ in range(r.randint(1, 7))))
+    for cfg in ({"multiline_tags": False, "autodiscover": False},):
+        try:
+            p = subprocess.run([sys.executable, "-c", OPTOUT_SCRIPT, str(core.REPO / "src"), json.dumps(cfg)],
+                               input=json.dumps(srcs), capture_output=True, text=True, timeout=300)
+        except subprocess.TimeoutExpired:
+            raise core.InfraError("opt-out subprocess timed out")
+        if p.returncode != 0:
+            raise core.InfraError("opt-out subprocess failed: " + p.stderr[-800:])
+        res = json.loads(p.stdout.strip().splitlines()[-1])
+        chk.count(stream, len(srcs), validated=len(srcs))
+        for s_ in srcs:
+            chk.branch(["optout-multiline" if "\n" in s_ else "optout-single-line"])
+        if res["after"] != res["orig"]:
+            chk.violation("impl-violates-spec", stream, {"COMPONENTS": cfg}, impl={"tag_re": res["after"]},
+                          spec={"tag_re": res["orig"]},
+                          note="with multiline_tags=False the library must leave django.template.base.tag_re alone")
+            return
+        for src, same in zip(srcs, res["same"]):
+            if not same:
+                chk.violation("impl-violates-spec", stream, {"COMPONENTS": cfg, "src": src},
+                              note="token stream differs from stock Django's under multiline_tags=False")
+                return
+
+
 def run(tier: str) -> int:
     save_originals()
     chk = core.Check(PROP, tier, THEOREMS, "DESIGN.md §8 C10")
@@ -583,6 +653,7 @@ def run(tier: str) -> int:
     core.use_repo()
     core.django_setup()
     n = 400 if tier == "quick" else 8000
+    run_optout(chk, 60 if tier == "quick" else 2000)
     run_stock(chk, n)
     run_flatten_stock(chk, n // 2)
     run_compose_directed(chk, n // 2)
